@@ -41,8 +41,12 @@ def random_tls_flow(rng, idx=0, ep=None, nmax=12, big=False, segkinds=("mss", "r
     return fl
 
 
-def random_quic_flow(rng, idx=0, ep=None, napp=None, sport=443, v6=None, avoid=(), ccid_len=None, path_swaps=None, bulk=None):
+def random_quic_flow(rng, idx=0, ep=None, napp=None, sport=443, v6=None, avoid=(), ccid_len=None, path_swaps=None, bulk=None, c_scid=None):
     s = quicsynth.random_qspec(rng, napp=napp, avoid=avoid, bulk=bulk)
+    if c_scid is not None:
+        s.c_scid_value, s.c_scid_len = c_scid, len(c_scid)
+        if not c_scid:
+            s.client_new_cid_at = -1
     if path_swaps is not None:
         s.path_swaps = path_swaps
     if ccid_len is not None:
